@@ -210,6 +210,8 @@ def chain_runs(rng, out, nruns, thorough):
     """real MH/PT chains: every level after every iteration, across clear and pickle-resume"""
     for _ in range(nruns):
         cfg = C.gen(rng, kind='td', allow_annealer=False)
+        if _ % 2 == 0:
+            cfg.update(pt=True, ntemps=3, betas=[1.0, 0.5, 0.1], si=1, blobs=True)
         n = cfg['td_n']
         comps = [['a%d' % i] for i in range(1, n + 1)]
         s = C.build(cfg)
